@@ -26,6 +26,10 @@ def gen_history(rng, n_series, length):
             ops.append({'op': 'set_default_cutoff', 'value': rng.choice([None, 0, 1, 3, length])})
         elif r < 0.75:
             ops.append({'op': 'set_suppress', 'value': rng.random() < 0.6})
+        elif r < 0.80:
+            # unrelated work elsewhere in the process: another holder object is built on another time axis (the name of
+            # one of the stored series), filled and rendered
+            ops.append({'op': 'other_holder', 'axis_series': rng.randrange(n_series), 'axis': rng.choice([None, None, 'year', 'x', 'z'])})
         elif r < 0.9:
             ops.append({'op': 'csv', 'fmt': rng.choice(['%.5g', '%r', '%.12e', None, None, '%.2f'])})
         else:
@@ -46,7 +50,7 @@ class C16(object):
             'return value with the reference slice; BaseSolver.CreateCsvString histories likewise; distinct = hash of '
             '(holder data, history); non-trivial = >= 2 reads of which one with suppression or mutation')
     assumptions = ['series are non-empty when time-zero suppression is on', 'cutoffs are non-negative']
-    required_counters = ('get.judged', 'get.no_cutoff_series_longer_than_model_horizon', 'get.suppressed', 'get.mutated_return', 'csv.judged', 'csv.default_format', 'basesolver.judged', 'get_missing.judged',
+    required_counters = ('get.judged', 'other_holder_built_between_reads', 'get.no_cutoff_series_longer_than_model_horizon', 'get.suppressed', 'get.mutated_return', 'csv.judged', 'csv.default_format', 'basesolver.judged', 'get_missing.judged',
                          'insitu.gettimeseries.post_evaluated')
 
     def n_cases(self, tier):
@@ -125,6 +129,15 @@ class C16(object):
                 continue
             if op['op'] == 'set_suppress':
                 mod.TimeSeriesSupressTimeZero = op['value']
+                continue
+            if op['op'] == 'other_holder':
+                names = sorted(snap['main'].keys())
+                axis = op['axis'] or (names[op['axis_series'] % len(names)] if names else 'year')
+                oh = TimeSeriesHolder(axis)
+                oh[axis] = [1.0, 2.0]
+                oh['zz_other'] = [3.0, 4.0]
+                oh.GenerateCSVtext()
+                rec.count('other_holder_built_between_reads')
                 continue
             if op['op'] == 'get_missing':
                 if op['name'] in snap[op['group']]:
